@@ -138,6 +138,12 @@ def listed_ops(nix):
     reg("DataArray", "append_set_dimension", lambda r, e, f: e.append_set_dimension(r.choice([None, ["a", "b"]])))
     reg("DataArray", "append_sampled_dimension", lambda r, e, f: e.append_sampled_dimension(r.choice([1.0, 0.25]), unit=r.choice([None, "s"])))
     reg("DataArray", "append_range_dimension", lambda r, e, f: e.append_range_dimension(r.choice([None, [1.0, 2.0]])))
+
+    def using_self(r, e, f):
+        if e.dtype.kind not in "fiu" or 0 in e.shape or not len(e.shape):
+            raise ValueError("not applicable")        # (raised here, not in the library: counted as not applicable)
+        e.append_range_dimension_using_self()
+    reg("DataArray", "append_range_dimension_using_self", using_self)
     reg("DataFrame", "units", lambda r, e, f: setattr(e, "units", [r.choice([None, "mV", "s"]) for _ in e.column_names]))
     reg("Tag", "position", lambda r, e, f: setattr(e, "position", other(r, [[1.0], [0.0, 2.0], [3.5, 1.0, 2.0]], list(e.position))))
     reg("Tag", "extent", lambda r, e, f: setattr(e, "extent", other(r, [None, [1.0], [0.5, 2.0]], list(e.extent) or None)))
